@@ -28,6 +28,10 @@ enum Case {
     /// two codecs used one after the other on the same thread (anything cached between calls per thread or
     /// per process, keyed by too little, shows here): a, b, a, b, every entry point and every text form
     Interleave { a: Cid, b: Cid },
+    /// length `n` (before insertion): an ASCII rejected byte and a multi-byte UTF-8 character (or two different
+    /// characters) at every position pair, in both orders: the text entry points must report the same first
+    /// offending byte as the byte entry points
+    Utf8Mix { cid: Cid, n: usize },
 }
 
 /// Rejected bytes chosen around the table edges (anything accepted by the codec is removed).
@@ -109,6 +113,12 @@ fn gen(t: Tier, _seed: u64, emit: &mut dyn FnMut(Case)) {
             emit(Case::Huge { cid, n });
         }
     }
+    for cid in Cid::WITH_CUSTOM {
+        let spw = 64 / cid.bits();
+        for n in [2usize, 3, 5, spw, spw + 1, 2 * spw + 1] {
+            emit(Case::Utf8Mix { cid, n });
+        }
+    }
     for a in Cid::WITH_CUSTOM {
         for b in Cid::WITH_CUSTOM {
             emit(Case::Interleave { a, b });
@@ -139,7 +149,7 @@ fn run(c: &Case, out: &mut Out) {
             }
             out.observe(&(a, b));
         }
-        Case::Pairs { cid, .. } | Case::Short { cid, .. } | Case::Valid { cid, .. } | Case::OneBad { cid, .. } | Case::TwoBad { cid, .. } | Case::Huge { cid, .. } => {
+        Case::Utf8Mix { cid, .. } | Case::Pairs { cid, .. } | Case::Short { cid, .. } | Case::Valid { cid, .. } | Case::OneBad { cid, .. } | Case::TwoBad { cid, .. } | Case::Huge { cid, .. } => {
             dispatch!(*cid, run_g(c, out))
         }
     }
@@ -176,6 +186,41 @@ fn run_g<A: Sx>(c: &Case, out: &mut Out) {
             });
         }
         Case::Interleave { .. } => unreachable!(),
+        Case::Utf8Mix { n, .. } => {
+            let acc = sp.accepted();
+            let base: Vec<u8> = (0..*n).map(|i| acc[(i * 3 + 1) % acc.len()]).collect();
+            let rej = rejected(&sp);
+            let ascii_bad: Vec<u8> = rej.iter().copied().filter(|b| b.is_ascii() && *b != 0).take(3).collect();
+            let multi: [&str; 4] = ["\u{e9}", "\u{20ac}", "\u{1F600}", "\u{3b1}"];
+            let mut tokens: Vec<Vec<u8>> = ascii_bad.iter().map(|b| vec![*b]).collect();
+            tokens.extend(multi.iter().map(|m| m.as_bytes().to_vec()));
+            for p in 0..*n {
+                for q in p + 1..*n {
+                    if *n > 12 && !(p < 2 || q + 2 >= *n || q == p + 1) {
+                        continue;
+                    }
+                    for (i, x) in tokens.iter().enumerate() {
+                        for (j, y) in tokens.iter().enumerate() {
+                            if i == j || (x.len() == 1 && y.len() == 1) {
+                                continue;
+                            }
+                            let mut v: Vec<u8> = Vec::with_capacity(*n + 8);
+                            for k in 0..*n {
+                                if k == p {
+                                    v.extend_from_slice(x);
+                                } else if k == q {
+                                    v.extend_from_slice(y);
+                                } else {
+                                    v.push(base[k]);
+                                }
+                            }
+                            one::<A>(&sp, &v, out);
+                        }
+                    }
+                }
+            }
+            out.observe(&(A::CID, *n));
+        }
         Case::Huge { n, .. } => {
             let n = *n;
             let acc = sp.accepted();
